@@ -39,8 +39,6 @@ def jets_file(c):
         c.vh(["c14", "table", p])
     return p
 
-KNOWN_COMMIT = "c01:commit-keeps-types-of-dropped-branch"
-
 def body(c):
     q = not c.thorough
     tier = "quick" if q else "thorough"
@@ -91,18 +89,13 @@ def body(c):
     c.vh(["c01", "record", runs, tpath], timeout=3000)
     def describe(ev):
         return ("c01:trace", json.dumps({k: ev[k] for k in ev if k not in ("dag", "ty", "aux")})[:500])
-    # known finding c01:commit-keeps-types-of-dropped-branch as a named deviation of the trace specification: while it is
-    # open the specification follows the crate (a commitment-time program constructed with a branch attached to a disconnect
-    # may not decode from its own bytes: "maximal sharing"), counts the events and they are reported as the finding;
-    # once the entry is closed the switch is off and such an event is a rejection again
-    allow = c.fingerprint_known(KNOWN_COMMIT) is not None
-    c.deviations = 0
-    validate_trace(c, "Trace_Codec", "Trace_Codec.cfg", tpath, describe, heap="8g",
-                   env={"JETS": jets_file(c), "ALLOC_C0": 0, "ALLOC_K": 0, "COMMITDISC": "allow" if allow else "deny"})
-    if c.deviations:
-        c.report(KNOWN_COMMIT, "%d recorded programs constructed with a branch attached to a disconnect: the commitment-time program does not decode from its own serialisation (not maximally shared once the branch's type constraints are gone)" % c.deviations,
-                 {"programs": c.deviations})
-        c.extra["commit_programs_not_decodable_after_dropping_a_disconnect_branch"] = c.deviations
+    validate_trace(c, "Trace_Codec", "Trace_Codec.cfg", tpath, describe, heap="8g", env={"JETS": jets_file(c), "ALLOC_C0": 0, "ALLOC_K": 0})
+    n_att = 0
+    for l in open(tpath):
+        e = json.loads(l)
+        if e.get("ev") == "c01" and any(nd[0] == "disc" and nd[2] for nd in e.get("cdag", [])) and e.get("commit", {}).get("out") == "err":
+            n_att += 1
+    c.extra["commit_programs_with_attached_branch_not_decodable"] = n_att        # observation, not claimed (DESIGN 10.4 / 10.5)
     c.assumptions += ["hidden roots and fail entropies are arbitrary fixed bit patterns", "jets are bound in the recorded direction (their codes come from the crate's tables, see C14)"]
     c.finish_kw = dict(exhaustive=True, rule=(
         "TLC: every well-typed 1->1 program up to 4 (5) nodes incl. witnesses (3 values per node), assertions, fail, words, "
